@@ -98,7 +98,9 @@ def check_dispatch(ctx):
             wit, n_cases = dispatch.judge(
                 fn, cached=owner.name == "CachedMapper",
                 skip_own=name == "rec_fallback",
-                module_tree=owner.module.tree, class_node=owner.node)
+                module_tree=owner.module.tree,
+                class_node=[k.node for k in reversed(model.mro(owner))
+                            if hasattr(k, "node") and k.module is owner.module])
         except AnalysisError as e:
             # the judge cannot read this tree: the structural rules decide
             ctx.extra[f"judge_unavailable:{owner.name}.{name}"] = str(e)
